@@ -392,6 +392,14 @@ def run(chunk):
 
 
 def main():
+    if sys.argv[1] == "--corpus":
+        corpus = json.loads(sys.argv[2])
+        fails, counts = [], {"corpora": 0, "queries": 0}
+        check_corpus(corpus, fails, counts)
+        for f in fails:
+            print("FAIL", f["case"], "|", f["detail"])
+        print("corpus:", corpus)
+        sys.exit(1 if fails else 0)
     n = int(sys.argv[1])
     seed = int(sys.argv[2])
     jobs = int(sys.argv[3]) if len(sys.argv) > 3 else 8
